@@ -265,7 +265,7 @@ two catalog tables included: `Fetch` of every table read returns rows or an erro
 returns rows or an error value, and every output column holds values of one kind or NULL. -/
 theorem select_never_panics_self {db : Engine.DB} {sdb : Spec.SDB} {pt sch : Levels}
     {tbls : List (Bytes × Levels)} (h : AbsV db.store pt sch tbls sdb) (hs : CatSelf pt sch) (q : Select)
-    (hq : (∃ a, q.list = [⟨.star, a⟩]) ∨ isStar q.list = false) :
+    (hq : Exec.NoPanicP.ParsedShape q) :
     (∀ n ∈ selectNames q, FetchTotal db n) ∧ (∀ x, evaluateSelect (fetchOf db) q ≠ .panic x) ∧
       ∀ rows hdr, evaluateSelect (fetchOf db) q = .ok (rows, hdr) →
         ∃ ks : List Kind, ∀ r ∈ rows, rowHas ks r = true := by
